@@ -40,7 +40,7 @@ ASSUME = [
     "most Python modules are imported in a fork of an interpreter that has done nothing but `import pyrtma` (same state as a fresh interpreter, without its start-up cost)",
 ]
 
-SUSPECT = ("alias-of-imported-struct", "alias-of-imported-struct-field", "struct-contains-message", "string-special", "prefix-names")
+SUSPECT = ("alias-of-imported-struct", "alias-of-imported-struct-field", "struct-contains-message", "string-special", "prefix-names", "long-names")
 PREFIXES = ("MT_", "MID_", "HID_")
 
 
@@ -217,7 +217,7 @@ def st_programs():
     plain = G.programs()
     skel = G.programs(skeleton=True)
     rich = G.programs(skeleton=True, rich=True)
-    opt = st.sampled_from([SUSPECT, SUSPECT[:2], SUSPECT[2:3], SUSPECT[3:4], SUSPECT[4:]]).flatmap(lambda a: G.programs(skeleton=True, allow=a))
+    opt = st.sampled_from([SUSPECT, SUSPECT[:2], SUSPECT[2:3], SUSPECT[3:4], SUSPECT[4:5], SUSPECT[5:]]).flatmap(lambda a: G.programs(skeleton=True, allow=a))
     return st.one_of(plain, skel, rich, opt, opt, opt)
 
 
